@@ -170,7 +170,42 @@ def bounded(b):
                     if not ok:
                         continue
                     _compare(b, case, pps if kind != "part" else [pps[0]], back, ppq, mpq, merged=merge_save or merge_load)
+    _dispatcher(b)
     _tempo_files(b)
+
+
+def _dispatcher(b):
+    """load_performance (format dispatch) hands its options to the MIDI reader as named: merge_tracks merges, first_note_at_zero only shifts"""
+    import os
+    import shutil
+    import tempfile
+    import partitura as pt
+    import partitura.performance as pf
+    pps = _build([dict(notes=[(60, 0.5, 1.0, 64, 0), (64, 1.0, 1.5, 70, 0)], controls=[(64, 0.7, 127)], programs=[]),
+                  dict(notes=[(72, 0.75, 1.25, 100, 2), (48, 0.5, 3.0, 30, 3)], controls=[], programs=[])])
+    d = tempfile.mkdtemp(prefix="c06_")
+    try:
+        fn = os.path.join(d, "two_tracks.mid")
+        pt.save_performance_midi(pf.Performance(pps), fn)
+        for merge, zero in ((False, False), (True, False), (False, True), (True, True)):
+            case = {"load_performance": {"merge_tracks": merge, "first_note_at_zero": zero}}
+            ok, perf = b.guard("dispatch/no_exception", case, lambda: pt.load_performance(fn, merge_tracks=merge, first_note_at_zero=zero))
+            if not ok:
+                continue
+            ref = pt.load_performance_midi(fn, merge_tracks=merge)
+            nparts = len(perf.performedparts)
+            tracks = sorted({n["track"] for pp in perf.performedparts for n in pp.notes})
+            good = nparts == len(ref.performedparts) == (1 if merge else 2) and tracks == ([0] if merge else [0, 1])
+            first = min(n["note_on"] for n in perf.performedparts[0].notes)
+            ref_first = min(n["note_on"] for n in ref.performedparts[0].notes)
+            if zero:
+                good = good and abs(first - max(0.0, ref_first - min(ref_first, min([c["time"] for c in ref.performedparts[0].controls] or [ref_first])))) < 1e-6
+            else:
+                good = good and abs(first - ref_first) < 1e-9
+            b.case("dispatch/options_reach_the_midi_reader_as_named", good, case, "%d parts on tracks %r, first note of the first part at %.4f s (MIDI reader: %d parts, %.4f s)" % (
+                nparts, tracks, first, len(ref.performedparts), ref_first))
+    finally:
+        shutil.rmtree(d, ignore_errors=True)
 
 
 def _compare(b, case, pps, back, ppq, mpq, merged):
@@ -299,7 +334,7 @@ def _tempo_files(b):
             good, what = False, "paired notes %r, expected %r" % ([g[:5] for g in got], want)
         else:
             for g in got:
-                if abs(Fraction(g[5]) - seconds(g[2], tev)) > Fraction(1, 10**6) or abs(Fraction(g[6]) - seconds(g[3], tev)) > Fraction(1, 10**6):
+                if abs(Fraction(g[5]) - seconds(g[2], tev)) > Fraction(1, 10**9) or abs(Fraction(g[6]) - seconds(g[3], tev)) > Fraction(1, 10**9):
                     good, what = False, "note pitch %d at tick %d..%d loaded at %.6f..%.6f s, tempo integral gives %.6f..%.6f s" % (
                         g[0], g[2], g[3], g[5], g[6], float(seconds(g[2], tev)), float(seconds(g[3], tev)))
                     break
